@@ -25,7 +25,7 @@ Proof. exact UnsubLaws.run_hot_incremental. Qed.
 Theorem C02_op2_incremental :
   forall o a s la lb b,
     run2 o s la lb (a ++ b) =
-    run2 o s la lb a ++ (let '(s', la', lb') := UnsubLaws.final2 o s la lb a in run2 o s' la' lb' b).
+    run2 o s la lb a ++ (let '(s', la', lb') := final2 o s la lb a in run2 o s' la' lb' b).
 Proof. exact UnsubLaws.run2_incremental. Qed.
 
 Theorem C02_flatten_silent :
@@ -41,7 +41,7 @@ Check C02_timed : forall o ls1 ls2, TimedLaws.not_raw o ->
 Check C02_chain_incremental : forall os a b, exists rest, run_hot os (a ++ b) = run_hot os a ++ rest.
 Check C02_op2_incremental : forall o a s la lb b,
     run2 o s la lb (a ++ b) =
-    run2 o s la lb a ++ (let '(s', la', lb') := UnsubLaws.final2 o s la lb a in run2 o s' la' lb' b).
+    run2 o s la lb a ++ (let '(s', la', lb') := final2 o s la lb a in run2 o s' la' lb' b).
 Check C02_flatten_silent : forall n s live j r,
     downstream (frun n s live j (FUnsub :: r)) = [] /\
     forall x, In x (frun n s live j (FUnsub :: r)) -> exists k, x = FMark k.
